@@ -124,6 +124,8 @@ def cfg_prog(tier, seed):
         for n in range(1, L + 1):
             if tier == 'quick' and ((grid == 'u3') != (n == 1)):
                 continue
+            if n == 3 and grid != 'u3':
+                continue            # three-operation programs on the three-sample grid (the path count of crop/trim splits grows with the grid)
             for prog in itertools.product(OPS, repeat=n):
                 out.append({'grid': grid, 'prog': list(prog)})
     return out, len(out), True
@@ -226,5 +228,5 @@ def run_prog(W, cfg):
 HARNESSES = {
     'integrate': {'configs': cfg_int, 'run': run_int, 'small': 600},
     'bin': {'configs': cfg_bin, 'run': run_bin, 'small': 8},
-    'resize_programs': {'configs': cfg_prog, 'run': run_prog, 'small': 600, 'max_paths': 4000},
+    'resize_programs': {'configs': cfg_prog, 'run': run_prog, 'small': 600, 'max_paths': 40000},
 }
